@@ -11,12 +11,14 @@ const PLACEMENTS: u64 = 6;
 const USES: u64 = 3; // 1 use, 2 uses, 2 uses in different case
 const ORIGINS: [u16; 3] = [0x3000, 0x0000, 0xFDF0];
 const DEFS: [u16; 3] = [0x4000, 0x4001, 0x0100];
+/// external label names: mixed-case ASCII, and one with a non-ASCII letter (the lexer accepts any Unicode word character)
+const NAMES: [&str; 2] = ["XtRn", "café_1"];
 
 fn user(placement: u64, uses: u64, origin: u16, name: &str) -> (AProg, Vec<u16>) {
     let ext = st(Nuc::External(name.to_string()));
     let mut body: Vec<AStmt> = vec![st(Nuc::Halt), lst("U1", Nuc::Fill(FillOp::Lab(name.to_string())))];
     let mut addrs = vec![origin + 1];
-    if uses >= 1 { body.push(st(Nuc::Fill(FillOp::Num(0x7777)))); body.push(st(Nuc::Fill(FillOp::Lab(if uses == 2 { name.to_ascii_lowercase() } else { name.to_string() })))); addrs.push(origin + 3); }
+    if uses >= 1 { body.push(st(Nuc::Fill(FillOp::Num(0x7777)))); body.push(st(Nuc::Fill(FillOp::Lab(if uses == 2 { name.to_lowercase() } else { name.to_string() })))); addrs.push(origin + 3); }
     let other = block(0x6000, vec![lst("OTHER", Nuc::Fill(FillOp::Num(1)))]);
     let prog = match placement {
         0 => { let mut p = vec![ext]; p.extend(block(origin, body)); p }
@@ -36,7 +38,7 @@ fn check(i: u64) -> Option<(String, String)> {
     let placement = i % PLACEMENTS; let uses = i / PLACEMENTS % USES; let debug = i / (PLACEMENTS * USES) % 2 == 1;
     let origin = ORIGINS[(i / (PLACEMENTS * USES * 2) % 3) as usize]; let def_at = DEFS[(i / (PLACEMENTS * USES * 6) % 3) as usize];
     let def_debug = i / (PLACEMENTS * USES * 18) % 2 == 1;
-    let name = "XtRn";
+    let name = NAMES[(i / (PLACEMENTS * USES * 36) % 2) as usize];
     let (prog, addrs) = user(placement, uses, origin, name);
     let tag = format!("placement={placement} uses={uses} debug={debug} origin=x{origin:04X} definer@x{def_at:04X} definer_debug={def_debug}");
     let r = catch(|| -> Result<(), (String, String)> {
@@ -44,7 +46,7 @@ fn check(i: u64) -> Option<(String, String)> {
         // direct load must fail with UnresolvedExternal
         let mut sim = new_sim();
         match sim.load_obj_file(&obj) {
-            Err(SimErr::UnresolvedExternal(l)) if l.eq_ignore_ascii_case(name) => {}
+            Err(SimErr::UnresolvedExternal(l)) if l.to_uppercase() == name.to_uppercase() => {}
             Err(e) => return Err(("direct-load-wrong-error".into(), format!("{tag}: load failed with {e:?}\n{text}"))),
             Ok(()) => return Err((format!("direct-load-succeeds:{}", if debug { "debug" } else { "nodebug" }), format!("{tag}: loading a file with an unresolved .fill {name} succeeded; words at {addrs:x?} = {:x?}\n{text}", addrs.iter().map(|a| sim.mem[*a].get()).collect::<Vec<_>>()))),
         }
@@ -81,8 +83,8 @@ fn check(i: u64) -> Option<(String, String)> {
 }
 
 pub fn run(ctx: &Ctx) -> Report {
-    let mut rep = Report::new(".external X placed {before the block, inside before the use, inside after the use, after the block, between two blocks (use before / after)} x {1 use, 2 uses, 2 uses in different letter case} x user assembled with/without debug symbols x 3 origins x 3 definer addresses x definer with/without debug symbols; direct load must fail with UnresolvedExternal; after linking with a definer that carries its label table, in either order, every .fill word must hold X's address and the load must succeed; after linking with a definer assembled without debug symbols (no label table, nothing to resolve against) the load must still fail with UnresolvedExternal rather than run with 0. non-trivial = every case (each has an unresolved external)");
-    let n = PLACEMENTS * USES * 2 * 3 * 3 * 2;
+    let mut rep = Report::new(".external X placed {before the block, inside before the use, inside after the use, after the block, between two blocks (use before / after)} x {1 use, 2 uses, 2 uses in different letter case} x user assembled with/without debug symbols x 3 origins x 3 definer addresses x definer with/without debug symbols x label name {ASCII mixed case, containing a non-ASCII letter}; direct load must fail with UnresolvedExternal; after linking with a definer that carries its label table, in either order, every .fill word must hold X's address and the load must succeed; after linking with a definer assembled without debug symbols (no label table, nothing to resolve against) the load must still fail with UnresolvedExternal rather than run with 0. non-trivial = every case (each has an unresolved external)");
+    let n = PLACEMENTS * USES * 2 * 3 * 3 * 2 * 2;
     let r = sweep(ctx, n, 4, |i, acc| {
         acc.evals += 1; acc.transitions += 6; acc.nontrivial += 1;
         acc.outcomes.insert(i % (PLACEMENTS * USES * 2));
